@@ -15,9 +15,14 @@ def parsePair (s : String) : Option (Str × Str) :=
   | [a, b] => do pure (← strOfHex a, ← strOfHex b)
   | _ => none
 
+/-- `idhex:secrethex` or `idhex:secrethex:1` (1 = may choose audiences) -/
 def parseClients (s : String) : Option (List Client) :=
   if s == "-" then some []
-  else (s.splitOn ",").mapM (fun p => (parsePair p).map fun (a, b) => ({ id := a, secret := b } : Client))
+  else (s.splitOn ",").mapM (fun p =>
+    match p.splitOn ":" with
+    | [a, b] => do pure ({ id := ← strOfHex a, secret := ← strOfHex b } : Client)
+    | [a, b, f] => do pure ({ id := ← strOfHex a, secret := ← strOfHex b, chosenAudiences := ← parseBool f } : Client)
+    | _ => none)
 
 structure Call where
   cfg : Cfg
@@ -49,8 +54,58 @@ def showOidcRej : Oidc.Rej → String
   | .pkceNotAllowed => "pkceNotAllowed" | .badCreds => "badCreds"
   | .code r => "code-" ++ showRej r
 
+def showAzRej : AzRej → String
+  | .responseType => "responseType" | .noClient => "noClient" | .scope => "scope" | .unknownClient => "unknownClient"
+  | .redirect => "redirect" | .challengeMethod => "challengeMethod" | .audience => "audience" | .nonce => "nonce"
+
+def strsOfField (s : String) : Option (List Str) :=
+  if s == "-" then some [] else (s.splitOn ",").mapM strOfHex
+
+/-- `az <issuerHex> <clients> <userHex> <respType> <clientID> <scope> <redirect> <nonce> <audience> <challenge>
+      <method> <redirectOK> <audienceOriginOK> <t>` ↦ the code the authorization handler mints, or its refusal -/
+def azModel : List String → Option String
+  | [iss, clients, user, rt, cid, scope, redirect, nonce, aud, ch, m, rok, aok, t] => do
+    let d : Deployment := { issuer := ← strOfHex iss, trusted := [] }
+    let cfg : Cfg := { dep := d, clients := ← parseClients clients, s256 := fun _ => [], openSealed := fun _ _ _ => none }
+    let rt ← strOfHex rt
+    let cid ← strOfHex cid
+    let scope ← strOfHex scope
+    let redirect ← strOfHex redirect
+    let nonce ← strOfHex nonce
+    let aud ← strOfHex aud
+    let ch ← strOfHex ch
+    let m ← strOfHex m
+    let rok ← parseBool rok
+    let aok ← parseBool aok
+    let f : AuthzForm := ⟨rt, cid, scope, redirect, nonce, aud, ch, m, rok, aok, "J".toList, "K".toList, "D".toList⟩
+    pure (match authorize cfg (← strOfHex user) f (← t.toInt?) with
+      | .ok c => "ok " ++ showWire c
+      | .error e => "rej " ++ showAzRej e)
+  | _ => none
+
+/-- `rel <issuerHex> <clientHex> <userHex> <nonceHex> <scopeHex> <audiences> <expMax> <idwire> <accwire>`:
+the property's predicates `idTokenOK` / `accessTokenOK` on tokens the implementation released -/
+def relJudge : List String → Option String
+  | [iss, client, user, nonce, scope, auds, expMax, idw, accw] => do
+    let d : Deployment := { issuer := ← strOfHex iss, trusted := [] }
+    let client ← strOfHex client
+    let user ← strOfHex user
+    let idt ← parseWire idw
+    let acc ← parseWire accw
+    let expMax ← expMax.toInt?
+    let a := idTokenOK d client user (← strOfHex nonce) expMax idt
+    let b := accessTokenOK d user (← strOfHex scope) (← strsOfField auds) expMax acc
+    let why :=
+      (if a then [] else
+        ["id-token:" ++
+          (if idt .aud != some (.strs [client]) then "aud-not-exactly-the-client" else "iss/sub/nonce/exp")]) ++
+      (if b then [] else ["access-token"])
+    pure (if a && b then "ok" else "viol " ++ ",".intercalate why)
+  | _ => none
+
 def model (fs : List String) : String :=
   match fs with
+  | "az" :: rest => (azModel rest).getD "bad-op"
   | ["ui", ns, iss, keys, alg, by_, sig, wire] =>
     (do
       let d : Deployment := { issuer := ← strOfHex iss, trusted := ← parseKeys keys }
@@ -70,6 +125,9 @@ def model (fs : List String) : String :=
 
 /-- `tok … <wire> <acc|rej>`: the theorem's predicate `releasable` applied to what the implementation did -/
 def judge (fs : List String) : String :=
+  match fs with
+  | "rel" :: rest => (relJudge rest).getD "bad-op"
+  | _ =>
   match parseTok fs with
   | some (k, [dec]) =>
     if dec == "acc" then
